@@ -199,6 +199,12 @@ pub fn run_c07(cx: &Cx) -> PropResult {
         if drive(crate::run::tag_seed(derive_seed(cx.seed, cx.prop, shard as u64, 1), 1), &strat, per_shard / 2, acc, &|c: &EvoSuffixCase| to_json(&json!({"Evo": c})), &mut |c, a, r| check_c07_evo(c, a, r)) {
             return;
         }
+        // borrowed / shared shapes that can only be written (&[T], &str, &T, Rc<str>, Rc<[T]>): what they write is read
+        // back as the owned counterpart, followed by a suffix
+        let strat = (crate::props::builtin::ser_only_tv_strategy(ValCfg { max_len: 6, long: false, ..ValCfg::default() }), suffix_strategy());
+        if drive(crate::run::tag_seed(derive_seed(cx.seed, cx.prop, shard as u64, 6), 6), &strat, per_shard / 6, acc, &|c: &(TV, Vec<u8>)| to_json(&json!({"SerOnly": {"tv": c.0, "suffix": c.1}})), &mut |c, a, r| check_c07_ser_only(&c.0, &c.1, a, r)) {
+            return;
+        }
         // values of a user codec that stores its bytes as compressed blocks (write_compressed / read_compressed through
         // the context), between ordinary values
         let strat = blob_case_strategy();
@@ -219,10 +225,54 @@ pub fn run_c07(cx: &Cx) -> PropResult {
     let mut r = PropResult::new(
         acc,
         "exploration",
-        "cases = 1 value, or 2-5 values of different types written back to back into one SerializationContext, followed by a suffix (empty, one byte, bytes that look like a continuation, random up to 64 bytes). The values are decoded in order from one DeserializationContext, which is then drained with read_u8: every value must come back and the drained bytes must equal the suffix exactly. Non-trivial = non-empty suffix and an encoding of >= 2 bytes. Sequences written through the public serialize_iterator helper with exact, unbounded-inexact and bounded-inexact size hints, followed by another value and a suffix. Values of a user codec that stores compressed blocks (contents of 0, 1-7, 8-299 and 70 000 bytes, levels 0-9) written through the context, each followed by a marker value. Evolved records: the same with (history, writer version w, reader version r, value, placement) cases from run-time histories and from the compiled batch — data of version w followed by a suffix is read by version r; when the documented outcome is a value the reader must leave exactly the suffix (unknown chunks skipped in full); stored version 0 read by a definition that removed fields is outside the quantifier (counted).",
+        "cases = 1 value, or 2-5 values of different types written back to back into one SerializationContext, followed by a suffix (empty, one byte, bytes that look like a continuation, random up to 64 bytes). The values are decoded in order from one DeserializationContext, which is then drained with read_u8: every value must come back and the drained bytes must equal the suffix exactly. Non-trivial = non-empty suffix and an encoding of >= 2 bytes. Sequences written through the public serialize_iterator helper with exact, unbounded-inexact and bounded-inexact size hints, followed by another value and a suffix. Values written by the borrowed / shared shapes (&[T], &str, &T, Rc<str>, Rc<[T]>, also of bytes) followed by a suffix and read back as their owned counterparts. Values of a user codec that stores compressed blocks (contents of 0, 1-7, 8-299 and 70 000 bytes, levels 0-9) written through the context, each followed by a marker value. Evolved records: the same with (history, writer version w, reader version r, value, placement) cases from run-time histories and from the compiled batch — data of version w followed by a suffix is read by version r; when the documented outcome is a value the reader must leave exactly the suffix (unknown chunks skipped in full); stored version 0 read by a definition that removed fields is outside the quantifier (counted).",
     );
     r.assumptions = vec!["DeserializationContext is a public BinaryInput: the unread remainder is observed without a hook".into()];
     r
+}
+
+fn owned_counterpart(t: &Ty) -> Ty {
+    let a = |t: Ty| Arc::new(t);
+    match t {
+        Ty::Slice(e) | Ty::RcSlice(e) => Ty::Vec(a(owned_counterpart(e))),
+        Ty::StrRef | Ty::RcStr => Ty::Str,
+        Ty::Ref(e) => owned_counterpart(e),
+        Ty::Vec(e) => Ty::Vec(a(owned_counterpart(e))),
+        other => other.clone(),
+    }
+}
+
+pub fn check_c07_ser_only(tv: &TV, suffix: &[u8], acc: &mut Acc, record: bool) -> Verdict {
+    // a sequence of &u8 is written element by element, and no owned type reads bytes that way (every container of u8
+    // uses the byte-array form): outside this check's pairs
+    let seq_of_byte_refs = tv.ty.any(&|t| matches!(t, Ty::Vec(e) | Ty::Slice(e) | Ty::RcSlice(e) if matches!(&**e, Ty::Ref(i) if **i == Ty::U8)));
+    if seq_of_byte_refs {
+        if record {
+            acc.exclude("sequence of &u8 (written element-wise; no owned counterpart reads that form)");
+        }
+        return Verdict::Skip;
+    }
+    let owned = owned_counterpart(&tv.ty);
+    let (enc, as_written) = vcat::encode(&tv.ty, &tv.val);
+    let mut bytes = match enc {
+        Ok(b) => b,
+        Err(e) => return Verdict::Fail(format!("encoding failed: {e:?}")),
+    };
+    let n = bytes.len();
+    bytes.extend_from_slice(suffix);
+    if record {
+        let class = format!("written by a borrowed / shared shape, read as the owned type: {}", vmodel::gen::root_class(&tv.ty));
+        acc.case(&class, hash_json(&(tv, suffix)), !suffix.is_empty() && n >= 2);
+        if acc.wants_sample(&class) {
+            acc.sample(&class, json!({"written_as": tv.ty.render(), "read_as": owned.render(), "value": tv.val.brief(), "bytes_hex": hex(&bytes[..bytes.len().min(48)])}));
+        }
+    }
+    let (got, rest) = vcat::decode_with_rest(&owned, &bytes);
+    match got {
+        Ok(v) if canon(&owned, &v) == canon(&owned, &as_written) && rest == suffix => Verdict::Pass,
+        Ok(v) => Verdict::Fail(format!("{} wrote {} ({} bytes); read as {} it gave {} and left {} of the {} suffix bytes", tv.ty.render(), hex(&bytes[..n]), n, owned.render(), v.brief(), rest.len(), suffix.len())),
+        Err(e) => Verdict::Fail(format!("{} wrote {}; reading it as {} failed: {e:?}", tv.ty.render(), hex(&bytes[..n]), owned.render())),
+    }
 }
 
 /// compressed blocks (content length, byte seed, level) each followed by a u16 marker, then a suffix
@@ -279,6 +329,11 @@ pub fn check_c07_blob(c: &BlobCase, acc: &mut Acc, record: bool) -> Verdict {
 }
 
 pub fn replay_c07(case: &Value) -> Verdict {
+    if let Some(e) = case.get("SerOnly") {
+        let tv: TV = serde_json::from_value(e["tv"].clone()).expect("replay case");
+        let suffix: Vec<u8> = serde_json::from_value(e["suffix"].clone()).expect("replay case");
+        return check_c07_ser_only(&tv, &suffix, &mut Acc::new(), false);
+    }
     if let Some(e) = case.get("Blob") {
         let c: BlobCase = serde_json::from_value(e.clone()).expect("replay case");
         return check_c07_blob(&c, &mut Acc::new(), false);
